@@ -67,6 +67,8 @@ class C08(InterpProp):
     def post_build(self, rnd, g, sc):
         n = 0
         objs = [sc.state_for(s) for s in sc.states] + list(sc.transitions)
+        if rnd.random() < 0.2:
+            gen.add_mutables(rnd, sc)
         for o in objs:
             for lst in (o.preconditions, o.postconditions, o.invariants):
                 for i in range(len(lst)):
